@@ -25,44 +25,31 @@ Definition compound_assign_target (n : node) : option node :=
   | _ => None
   end.
 
-(** K1: a compound assignment [t += e] whose target contains an instrumentable operation
-    (the target is emitted twice, so the hook call inside it is emitted twice). *)
-Definition k_compound_target_instrumentable (prog : node) : bool :=
-  any_node (fun n => match compound_assign_target n with
-                     | Some lhs => any_node (kind_in instrumentable_kinds) lhs
-                     | None => false
-                     end) prog.
-
-(** K2: a compound assignment whose target is a member expression that is more than
-    [ident.prop] / [this.prop] / [ident[literal-or-ident]]: its object / key expression is
-    evaluated twice by the rewritten code. *)
-Definition simple_member_target (t : node) : bool :=
-  match t with
+(** K4: [P.m.call(this, ..)] / [P.m.apply(this, ..)] of a configured method [m] whose path [P] is not
+    static (an identifier, [this], or a dotted path of those): the rewritten code evaluates the
+    this-argument before [P] -- the property exempts that order only for static paths. *)
+Fixpoint static_path (e : node) : bool :=
+  match e with
   | Node (K KIdent _ _) _ => true
-  | Node (K KMember _ _) [obj; prop] =>
-      (is_ident obj || is_kind KThis obj)
-      && match prop with
-         | Node (K KIdentName _ _) _ => true
-         | Node (K KPrivateName _ _) _ => true
-         | Node (K KComputed _ _) [e] => is_lit e || is_ident e
-         | _ => false
-         end
-  | Node (K KSuperProp _ _) [_; prop] =>
-      match prop with
-      | Node (K KIdentName _ _) _ => true
-      | Node (K KComputed _ _) [e] => is_lit e || is_ident e
-      | _ => false
+  | Node (K KThis _ _) _ => true
+  | Node (K KMember _ _) [obj; Node (K KIdentName _ _) _] => static_path obj
+  | _ => false
+  end.
+
+Definition call_apply_nonstatic (names : list string) (n : node) : bool :=
+  match n with
+  | Node (K KCall _ _) [_; Node (K KMember _ _) [Node (K KMember _ _) [p; mprop]; cprop]; Node Lst (_ :: _); _] =>
+      match ident_name_sym cprop, ident_name_sym mprop with
+      | Some ca, Some m =>
+          (String.eqb ca gen_CALL || String.eqb ca gen_APPLY) && existsb (String.eqb m) names && negb (static_path p)
+      | _, _ => false
       end
   | _ => false
   end.
 
-Definition k_compound_member_target (prog : node) : bool :=
-  any_node (fun n => match compound_assign_target n with
-                     | Some lhs => negb (simple_member_target lhs)
-                     | None => false
-                     end) prog.
+Definition k_call_apply_nonstatic (names : list string) (prog : node) : bool :=
+  any_node (call_apply_nonstatic names) prog.
 
 (** Names of the classes that apply to a program ([names] = configured method source names). *)
 Definition known_classes (names : list string) (prog : node) : list string :=
-  (if k_compound_target_instrumentable prog then ["compound-target-instrumentable"] else []) ++
-  (if k_compound_member_target prog then ["compound-member-target"] else []).
+  (if k_call_apply_nonstatic names prog then ["call-apply-nonstatic-path"] else []).
